@@ -3,7 +3,7 @@ CONSTANTS
   Alphabet = {"lo", "up", "dg", "us", "st", "sp", "dd", "sl", "dq", "sq", "bt", "bs", "nl", "nu", "d2", "d3", "nd", "no", "ns", "iv"}
   MaxLen = 3
   MinLen = 3
-  Shapes = {"multi", "obj", "objmulti", "tags", "tagsmulti", "nested", "nestedmulti"}
+  Shapes = {"multi", "obj", "objmulti"}
   LimMode = "all"
   Firsts = {"lo", "up", "dg", "us", "st", "sp", "dd", "sl", "dq", "sq", "bt", "bs", "nl", "nu", "d2", "d3", "nd", "no", "ns", "iv"}
   Sample = FALSE
